@@ -11,7 +11,35 @@ VERIF = os.path.dirname(os.path.dirname(os.path.abspath(__file__)))
 def for_property(prop, tier):
     if prop == 'C18':
         return [kani_prime_residue]
+    if prop == 'C11':
+        return [bounded_coset_table]
     return []
+
+
+def bounded_coset_table(repo, work, tier, seed):
+    """BOUNDED stand-in (never counted as proved): coset_table itself is outside the verifier's reach (Todd-Coxeter with coincidences,
+    RangeFrom loops, BTreeSet iteration, merge/compact).  The main clause of C11 is executed on a fixed list of seven small
+    presentations (S3 with three subgroups, Z2xZ2, Z5, a presentation with empty words, A4-like) on the real crate."""
+    import falsify
+    res = {'name': 'bounded:coset_table', 'failures': [], 'undecided': [], 'obligations': 0, 'failed': 0, 'samples': [], 'trusted': [],
+           'bounded': [{'function': 'fpgroups::cosets::coset_table', 'kind': 'bounded stand-in, NOT a proof',
+                        'bound': '7 fixed presentations with <= 2 generators and index <= 6 (replay/falsifier.rs, section C11)',
+                        'checks': 'row count = index, every generator a permutation whose inverse is the inverse generator, subgroup generators fix row 0'}]}
+    r = falsify.run('C11', repo)
+    res['cmd'] = r['cmd']
+    res['wall'] = r.get('wall')
+    if r['error']:
+        res['undecided'].append(r['error'])
+        return res
+    bad = [l for l in r['lines'] if l[0] == 'coset_table']
+    res['bounded'][0]['result'] = 'no discrepancy' if not bad else '%d discrepancies' % len(bad)
+    if bad:
+        tag, inp, what = bad[0]
+        res['failures'].append({'unit': 'bounded', 'function': 'coset_table', 'kind': 'bounded', 'backend': 'executed on the real crate (bounded stand-in)',
+                                'message': what, 'site': inp, 'props': ['C11'], 'rendered': r['raw'][-1500:],
+                                'counterexample': {'source': 'replay/falsifier.rs executed on the real crate', 'function': 'coset_table', 'input': inp,
+                                                   'observed': what, 'all_discrepancies': len(bad), 'cmd': r['cmd']}})
+    return res
 
 
 def _copy_repo(repo, dst):
@@ -131,6 +159,15 @@ def kani_prime_residue(repo, work, tier, seed):
                 res['failed'] -= 1
                 continue
             cex = {'harness': n, 'symbolic_inputs_in_order': [int(v) for v in vals]} if vals else None
+            if cex:
+                try:
+                    import replay
+                    replay.REPO = repo
+                    rr = replay.replay_kani(cex)
+                    if rr:
+                        cex['replayed_on_real_code'] = rr['stdout']
+                except Exception as e:       # replay is best effort
+                    cex['replay_error'] = str(e)
             res['failures'].append({'unit': 'kani_prime_residue', 'function': n, 'kind': 'assert', 'backend': 'kani/cbmc',
                                     'message': '; '.join(failed_checks[:4]), 'site': '; '.join(failed_checks[:2]),
                                     'props': ['C18'], 'counterexample': cex, 'rendered': b[-1200:]})
